@@ -155,3 +155,38 @@ func SortedFns(set map[*Fn]bool) []*Fn {
 	sort.Slice(out, func(i, j int) bool { return out[i].Name < out[j].Name })
 	return out
 }
+
+// FnsReaching returns the module functions from which a call to one of the named callees
+// (CalleeName form) is reachable through the over-approximated call graph, including the
+// functions that contain such a call directly.
+func (p *Prog) FnsReaching(names ...string) map[*Fn]bool {
+	direct := map[*Fn]bool{}
+	for _, f := range p.Fns {
+		if f.Body == nil {
+			continue
+		}
+		if len(p.CallsIn(f, names...)) > 0 {
+			direct[f] = true
+		}
+	}
+	out := map[*Fn]bool{}
+	for f := range direct {
+		out[f] = true
+	}
+	for changed := true; changed; {
+		changed = false
+		for _, f := range p.Fns {
+			if out[f] || f.Body == nil {
+				continue
+			}
+			for _, g := range p.Callees(f) {
+				if out[g] {
+					out[f] = true
+					changed = true
+					break
+				}
+			}
+		}
+	}
+	return out
+}
